@@ -878,6 +878,7 @@ fn gen_wrapped(r: &mut Rng, tier: Tier, out: &mut Out) {
 		let b = gen_code_body(r, out);
 		if i % 3 == 0 { oracle(out, "code", &[Sexp::bytes(&b)]); } else { hexop(out, "code", &b); }
 		if i % 8 == 0 { out.op("oracle-alloc", &[Sexp::tag("code"), Sexp::bytes(&b)]); }
+		if i % 4 == 1 { out.op("oracle-write-no-panic", &[Sexp::bytes(&wrapper_class(&[], Some((7, &b)), &[]))]); out.stats.hit("write-oracle:wrapped-code"); }
 	}
 	for i in 0..rounds / 2 {
 		let mut b = Vec::new();
@@ -886,6 +887,7 @@ fn gen_wrapped(r: &mut Rng, tier: Tier, out: &mut Out) {
 		if r.chance(1, 8) { let n = r.below(b.len() + 1); b.truncate(n); }
 		if r.chance(1, 12) { b.push(0); }
 		if i % 3 == 0 { oracle(out, "anno", &[Sexp::bytes(&b)]); } else { hexop(out, "anno", &b); }
+		if i % 5 == 2 { out.op("oracle-write-no-panic", &[Sexp::bytes(&wrapper_class(&[], Some((28, &b)), &[]))]); out.stats.hit("write-oracle:wrapped-anno"); }
 	}
 	// linear nesting far below the stack budget
 	for d in [1usize, 2, 8, 40, 200] {
@@ -975,65 +977,104 @@ fn finish_text(r: &mut Rng, lines: Vec<Vec<u8>>, out: &mut Out) -> Vec<u8> {
 	t
 }
 
+/// a structurally valid file (lines as (indent, fields)), then token / indentation / arity mutations
+fn mutate_lines(r: &mut Rng, lines: &mut Vec<(usize, Vec<Vec<u8>>)>, out: &mut Out) {
+	let n = match r.below(10) { 0 | 1 | 2 | 3 => 0, 4 | 5 | 6 | 7 => 1, 8 => 2, _ => 4 };
+	for _ in 0..n {
+		if lines.is_empty() { break; }
+		let i = r.below(lines.len());
+		match r.below(9) {
+			0 => { lines[i].0 += r.range(1, 2); out.stats.hit("text-mut:indent+"); }
+			1 => { lines[i].0 = lines[i].0.saturating_sub(1); out.stats.hit("text-mut:indent-"); }
+			2 | 3 => { let f = &mut lines[i].1; if !f.is_empty() { let k = r.below(f.len()); f[k] = text_token(r); } out.stats.hit("text-mut:token"); }
+			4 => { let f = &mut lines[i].1; if f.len() > 1 { let k = r.range(1, f.len() - 1); f.remove(k); } out.stats.hit("text-mut:drop-field"); }
+			5 => { let t = text_token(r); lines[i].1.push(t); out.stats.hit("text-mut:extra-field"); }
+			6 => { let l = lines[i].clone(); lines.insert(i, l); out.stats.hit("text-mut:dup-line"); }
+			7 => { lines.remove(i); out.stats.hit("text-mut:drop-line"); }
+			_ => { let f = &mut lines[i].1; if f.len() > 1 { let k = r.range(1, f.len() - 1); f[k] = Vec::new(); } out.stats.hit("text-mut:empty-field"); }
+		}
+	}
+}
+
+fn ident(r: &mut Rng) -> Vec<u8> {
+	if r.chance(1, 12) { return r.pick(&["é", "日本", "\u{1f600}", "a$b", "A$1"]).as_bytes().to_vec(); }
+	vec![*r.pick(b"abcdefghABCDEF"), *r.pick(b"abcdefgh0123"), *r.pick(b"xyz012")]
+}
+
 fn gen_tiny_text(r: &mut Rng, n: usize, diff: bool, out: &mut Out) -> Vec<u8> {
-	let mut lines = Vec::new();
+	let mut lines: Vec<(usize, Vec<Vec<u8>>)> = Vec::new();
 	let mut hdr: Vec<Vec<u8>> = vec![b"tiny".to_vec(), b"2".to_vec(), b"0".to_vec()];
 	if !diff { for i in 0..n { hdr.push(format!("ns{i}").into_bytes()); } }
-	if r.chance(1, 10) { let i = r.below(hdr.len()); hdr[i] = text_token(r); }
-	if r.chance(1, 15) { hdr.push(text_token(r)); }
-	if r.chance(1, 15) { hdr.pop(); }
-	lines.push(join_line(r, 0, &hdr, b'\t'));
-	let mut level = 0usize;
-	for _ in 0..r.range(0, 8) {
-		let ind = match r.below(10) { 0 => level + 2, 1 => r.below(6), 2 | 3 => level.saturating_sub(1), 4 | 5 | 6 => level + 1, _ => level };
-		let ind = ind.min(7);
-		let first: &[u8] = match (ind, r.below(8)) { (_, 0) => b"x", (0, _) => b"c", (1, k) => [&b"f"[..], b"m", b"c", b"m"][k % 4], (2, k) => [&b"p"[..], b"c"][k % 2], _ => b"c" };
-		let mut fields = vec![first.to_vec()];
-		let want = match first { b"c" if ind == 0 => if diff { 3 } else { n }, b"f" | b"m" => if diff { 4 } else { n + 1 }, b"p" => if diff { 4 } else { n + 1 }, _ => if diff { 2 } else { 1 } };
-		let want = match r.below(12) { 0 => want + 1, 1 => want.saturating_sub(1), _ => want };
-		for k in 0..want {
-			let tok = match (first, k) {
-				(b"f", 0) => r.pick(&["I", "LA;", "[J"]).as_bytes().to_vec(),
-				(b"m", 0) => r.pick(&["()V", "(I)V", "(LA;)LB;"]).as_bytes().to_vec(),
-				(b"p", 0) => r.pick(&["0", "1", "2"]).as_bytes().to_vec(),
-				(b"p", 1) if diff => Vec::new(),
-				_ => if r.chance(1, 5) { text_token(r) } else if r.chance(1, 6) { Vec::new() } else { vec![*r.pick(b"abcdefgh"), *r.pick(b"abcdefgh0123")] },
-			};
-			fields.push(if r.chance(1, 12) { text_token(r) } else { tok });
+	lines.push((0, hdr));
+	let names = |r: &mut Rng, k: usize| -> Vec<Vec<u8>> { (0..k).map(|_| if r.chance(1, 8) { Vec::new() } else { ident(r) }).collect() };
+	let cols = if diff { 2 } else { n - 1 };
+	let comment = |r: &mut Rng, ind: usize, lines: &mut Vec<(usize, Vec<Vec<u8>>)>| {
+		if r.chance(1, 3) {
+			let mut f = vec![b"c".to_vec()];
+			if diff { f.push(if r.chance(1, 2) { Vec::new() } else { b"old".to_vec() }); }
+			f.push(r.pick(&["doc", "two\\nlines", "x\\y", "tab\\t", "", "ü"]).as_bytes().to_vec());
+			lines.push((ind, f));
 		}
-		lines.push(join_line(r, ind, &fields, b'\t'));
-		level = ind;
-		out.stats.hit(&format!("tiny:indent={ind}"));
+	};
+	for _ in 0..r.below(3) {
+		let mut f = vec![b"c".to_vec(), ident(r)]; f.extend(names(r, cols)); lines.push((0, f));
+		comment(r, 1, &mut lines);
+		for _ in 0..r.below(3) {
+			let is_f = r.chance(1, 2);
+			let mut f = vec![if is_f { b"f".to_vec() } else { b"m".to_vec() }];
+			f.push(if is_f { r.pick(&["I", "LA;", "[J"]).as_bytes().to_vec() } else { r.pick(&["()V", "(I)V", "(LA;)LB;"]).as_bytes().to_vec() });
+			f.push(ident(r)); f.extend(names(r, cols));
+			lines.push((1, f));
+			comment(r, 2, &mut lines);
+			if !is_f {
+				for p in 0..r.below(3) {
+					let mut f = vec![b"p".to_vec(), r.pick(&["0", "1", "2", "7", "007", "+3", "18446744073709551615"]).as_bytes().to_vec()];
+					if p > 0 && r.chance(1, 2) { f[1] = p.to_string().into_bytes(); }
+					f.push(if diff { Vec::new() } else { ident(r) }); f.extend(names(r, cols));
+					lines.push((2, f));
+					comment(r, 3, &mut lines);
+				}
+			}
+		}
 	}
+	mutate_lines(r, &mut lines, out);
+	out.stats.hit(if diff { "tinydiff:text" } else { "tiny:text" });
+	let lines: Vec<Vec<u8>> = lines.iter().map(|(ind, f)| join_line(r, *ind, f, b'\t')).collect();
 	finish_text(r, lines, out)
 }
 
 fn gen_enigma_text(r: &mut Rng, out: &mut Out) -> Vec<u8> {
-	let mut lines = Vec::new();
-	let mut level = 0usize;
-	for _ in 0..r.range(0, 9) {
-		let ind = match r.below(10) { 0 => level + 2, 1 => r.below(6), 2 | 3 => level.saturating_sub(1), 4 | 5 | 6 => level + 1, _ => level };
-		let ind = ind.min(9);
-		let kw: &str = match r.below(12) { 0 | 1 | 2 | 3 => "CLASS", 4 | 5 => "FIELD", 6 | 7 => "METHOD", 8 => "ARG", 9 => "COMMENT", 10 => *r.pick(&["class", "CLAS", "COMMENTx", "#", ""]), _ => "CLASS" };
-		let mut fields = vec![kw.as_bytes().to_vec()];
-		let want = match kw { "CLASS" => r.range(1, 3), "FIELD" | "METHOD" => r.range(2, 4), "ARG" => 2, _ => r.below(4) };
-		let want = if r.chance(1, 10) { want + 2 } else { want };
-		for k in 0..want {
-			let tok = match (kw, k) {
-				("ARG", 0) => r.pick(&["0", "1", "-1", "x"]).as_bytes().to_vec(),
-				("FIELD", _) if k + 1 == want => r.pick(&["I", "LA;", "ACC:PRIVATE"]).as_bytes().to_vec(),
-				("METHOD", _) if k + 1 == want => r.pick(&["()V", "(I)V", "ACC:PUBLIC"]).as_bytes().to_vec(),
-				_ => if r.chance(1, 5) { text_token(r) } else { vec![*r.pick(b"ABCDEFab"), *r.pick(b"abc$12")] },
-			};
-			fields.push(tok);
+	let mut lines: Vec<(usize, Vec<Vec<u8>>)> = Vec::new();
+	fn class(r: &mut Rng, ind: usize, lines: &mut Vec<(usize, Vec<Vec<u8>>)>) {
+		let mut f = vec![b"CLASS".to_vec(), ident(r)];
+		if r.chance(2, 3) { f.push(ident(r)); }
+		if r.chance(1, 6) { f.push(b"ACC:PUBLIC".to_vec()); }
+		lines.push((ind, f));
+		if r.chance(1, 3) { lines.push((ind + 1, vec![b"COMMENT".to_vec(), b"some".to_vec(), b"#".to_vec(), b"text".to_vec()])); }
+		for _ in 0..r.below(3) {
+			let is_f = r.chance(1, 2);
+			let mut f = vec![if is_f { b"FIELD".to_vec() } else { b"METHOD".to_vec() }, ident(r)];
+			if r.chance(2, 3) { f.push(ident(r)); }
+			f.push(if is_f { r.pick(&["I", "LA;"]).as_bytes().to_vec() } else { r.pick(&["()V", "(I)V"]).as_bytes().to_vec() });
+			if r.chance(1, 8) { f.push(b"ACC:PRIVATE".to_vec()); }
+			lines.push((ind + 1, f));
+			if r.chance(1, 4) { lines.push((ind + 2, vec![b"COMMENT".to_vec(), b"d".to_vec()])); }
+			if !is_f {
+				for _ in 0..r.below(3) {
+					lines.push((ind + 2, vec![b"ARG".to_vec(), r.pick(&["0", "1", "2", "+1", "-1", "x", "18446744073709551616"]).as_bytes().to_vec(), ident(r)]));
+					if r.chance(1, 4) { lines.push((ind + 3, vec![b"COMMENT".to_vec(), b"p".to_vec()])); }
+				}
+			}
 		}
-		let sep = *r.pick(&[b' ', b' ', b' ', b'\t', 0x0b]);
-		let mut l = join_line(r, ind, &fields, sep);
-		if r.chance(1, 10) { l.extend_from_slice(*r.pick(&[&b" # trailing"[..], b"#", b" ", b"\t", "\u{a0}".as_bytes(), "\u{2003}".as_bytes()])); }
-		lines.push(l);
-		level = ind;
-		out.stats.hit(&format!("enigma:indent={ind}"));
+		if ind < 4 { for _ in 0..r.below(2) { class(r, ind + 1, lines); } }
 	}
+	for _ in 0..r.below(3) { class(r, 0, &mut lines); }
+	if r.chance(1, 6) { lines.push((0, vec![b"# a comment line".to_vec()])); }
+	if r.chance(1, 6) { lines.insert(0, (0, vec![Vec::new()])); }
+	mutate_lines(r, &mut lines, out);
+	out.stats.hit("enigma:text");
+	let lines: Vec<Vec<u8>> = lines.iter().map(|(ind, f)| { let sep = *r.pick(&[b' ', b' ', b' ', b'\t', 0x0b]); let mut l = join_line(r, *ind, f, sep);
+		if r.chance(1, 12) { l.extend_from_slice(*r.pick(&[&b" # trailing"[..], b"#", b" ", b"\t", "\u{a0}".as_bytes(), "\u{2003}".as_bytes()])); } l }).collect();
 	finish_text(r, lines, out)
 }
 
